@@ -29,6 +29,9 @@ def b_len(ex, st, node, args, kw):
         return VNum(ex.card_of(st, x.keys), "int")
     if isinstance(x, (VTup, VPyList)):
         return mk_int(len(x.items))
+    from .sorts import VBDict
+    if isinstance(x, VBDict):
+        return VNum(z3.Length(x.keys), "int")
     raise OutOfReach(f"len of {x!r}")
 
 
@@ -281,7 +284,16 @@ def b_the(ex, st, node, args, kw):
     return VStr(e[0])
 
 
+def b_bd_keys(ex, st, node, args, kw):
+    return VSeq(args[0].keys, S.Ballot)
+
+
+def b_bd_vals(ex, st, node, args, kw):
+    return VSeq(args[0].vals, S.Real)
+
+
 BUILTINS = {
+    "bd_keys": b_bd_keys, "bd_vals": b_bd_vals,
     "the": b_the,
     "bool": b_bool, "tb_value": b_tb_value,
     "Ballot": b_Ballot,
